@@ -1,5 +1,5 @@
 (** C08 — correspondence cases and the spec-side predicate on the implementation's outputs. *)
-From V Require Import Base.Util C08.Model.
+From V Require Import Base.Util C08.Model C08.Spec.
 Local Open Scope N_scope.
 
 Inductive case :=
@@ -20,17 +20,6 @@ Definition agree (c : case) : bool :=
   | CRender files pos msg addl out => rres_eqb (print_positioned_error files pos msg addl) out
   | CParse ts text oc => parse_class ts text =? oc
   | CWs l => list_eqb N.eqb ws_table l
-  end.
-
-(** the guard of the property for the renderer: every file index that is looked at is in the store,
-    and columns are machine integers that leave room for [+ 1] *)
-Definition pos_in_store (files : list (str * str)) (p : rpos) : bool :=
-  rp_builtin p || ((rp_file p <? N.of_nat (length files)) && (rp_col p <? usize_max)).
-
-Definition render_guard (files : list (str * str)) (pos : option rpos) (addl : list (rpos * str)) : bool :=
-  match pos with
-  | None => true
-  | Some p => pos_in_store files p && (rp_builtin p || forallb (fun a => pos_in_store files (fst a)) addl)
   end.
 
 (** the property, read on the implementation's own outputs: a stage returns a value or an error,
